@@ -249,7 +249,8 @@ static htp_status_t htp_connp_res_buffer(htp_connp_t *connp) {
 static htp_status_t htp_connp_res_consolidate_data(htp_connp_t *connp, unsigned char **data, size_t *len) {    
     if (connp->out_buf == NULL) {
         // We do not have any data buffered; point to the current data chunk.
-        *data = connp->out_current_data + connp->out_current_consume_offset;
+        // The final, zero-length call made on stream closure carries no data pointer.
+        *data = (connp->out_current_data != NULL) ? connp->out_current_data + connp->out_current_consume_offset : NULL;
         *len = connp->out_current_read_offset - connp->out_current_consume_offset;
     } else {
         // We do have data in the buffer. Add data from the current
